@@ -26,8 +26,8 @@ PROPS = {
         nontrivial_key="next_found", assumptions=ASSUME, exhaustive_tiers=()),
 }
 TEXT = {
-    "C17": dict(level="TLC enumerates every conventional pager of the stated family (all 78 (N,k) cells x 3 URL families x markups; PrevNext: x label sets) from spec/Pager.tla; each is rendered and run through Apply with the page-number and the prev/next finder; TLC decides NextIsPageAfter / PrevIsPageBefore (exact expected links) on every recorded run. Exhaustive over the stated pager family in the thorough tier.", ref="DESIGN.md 7 C17",
-                note="trusted base: TLC 1.8; harness/fam_pager.go renders the pager and decodes the returned URLs to page indexes by exact string match with the generated links", technique="TLA+ pager model + TLC exhaustive enumeration; real-code runs validated by TLC against spec/trace/PagerTrace.tla"),
-    "C16": dict(level="TLC enumerates mixed pagers (every short sequence of anchors over 14 href kinds incl. javascript:, mailto:, empty, #, malformed, off-site, look-alike hosts, other scheme/case, scheme-relative) with and without a plain current-page number, for both finders and three page-URL shapes, plus all conventional pagers; on each real run TLC checks that a non-empty NextPage/PrevPage is absolute, http(s), on the page's host and the normalised target of an anchor of the document.", ref="DESIGN.md 7 C16",
-                note="trusted base: TLC 1.8; the lexical link facts of harness/fam_pager.go (Go's net/url only resolves the document's own anchors against the page URL to build the target set)", technique="TLA+ pager model + TLC enumeration; real-code runs validated by TLC against spec/trace/PagerTrace.tla"),
+    "C17": dict(level="TLC enumerates every conventional pager of the stated family (all 78 (N,k) cells x 3 URL families x markups; PrevNext: x label sets) from spec/Pager.tla; each is rendered and run through Apply with the page-number and the prev/next finder; TLC decides NextIsPageAfter / PrevIsPageBefore (exact expected links) on every recorded run. Exhaustive over the stated pager family in the thorough tier. Second stage: spec/PageNumber.tla (the finder transcribed as a machine: monotonic grouping, candidate patterns, adjacency/consecutiveness/gap analysis, linear formula, first-page insertion, next/prev derivation) - TLC proves at design level that every conventional pager (N <= 12, every k) is resolved to exactly (k+1, k-1), and every enumerated pager is run on the real finder, its detector steps (hooks) are replayed on the model step by step (differences are reported as DRIFT) and the returned links are judged.", ref="DESIGN.md 7 C17",
+                note="trusted base: TLC 1.8; harness/fam_pager.go renders the pager and decodes the returned URLs to page indexes by exact string match with the generated links", technique="TLA+ pager model (spec/Pager.tla) and finder model (spec/PageNumber.tla) + TLC exhaustive enumeration; real-code runs validated by TLC against spec/trace/PagerTrace.tla and, step by step through the detector hooks, spec/trace/PNTrace.tla"),
+    "C16": dict(level="TLC enumerates mixed pagers (every short sequence of anchors over 14 href kinds incl. javascript:, mailto:, empty, #, malformed, off-site, look-alike hosts, other scheme/case, scheme-relative) with and without a plain current-page number, for both finders and three page-URL shapes, plus all conventional pagers; on each real run TLC checks that a non-empty NextPage/PrevPage is absolute, http(s), on the page's host and the normalised target of an anchor of the document. Second stage: spec/PageNumber.tla - TLC checks NeverPlaceHolder and AnswerIsALink (the answer is the URL of a link item, never a javascript:/empty place holder, never the page itself inserted as first page) on the finder model for every pager of the bound over links with two numeric path components, javascript: and empty-href place holders and plain numbers; each pager is run on the real finder, replayed on the model through the detector hooks, and the returned links must be links of the pager.", ref="DESIGN.md 7 C16",
+                note="trusted base: TLC 1.8; the lexical link facts of harness/fam_pager.go (Go's net/url only resolves the document's own anchors against the page URL to build the target set)", technique="TLA+ pager model (spec/Pager.tla) and finder model (spec/PageNumber.tla) + TLC enumeration; real-code runs validated by TLC against spec/trace/PagerTrace.tla and spec/trace/PNTrace.tla"),
 }
